@@ -623,6 +623,8 @@ cmd_script (FILE *in)
 
 /* batch: scripts separated by lines "== <name>"; each runs in a forked child so that a crash,
 ** sanitizer abort or timeout is attributed to that script alone. */
+static char batch_tmp [300] ;
+
 int
 cmd_batch (FILE *in, int timeout_s)
 {	char *line = NULL ; size_t cap = 0 ;
@@ -631,6 +633,13 @@ cmd_batch (FILE *in, int timeout_s)
 	int more = 1 ;
 	op_timeout = timeout_s ;
 	setvbuf (stdout, NULL, _IOFBF, 1 << 16) ;
+	/* One private TMPDIR per batch process (its children run one at a time): the library's ALAC spool file is
+	** `<TMPDIR>/<rand><rand>-alac.tmp`, opened without O_EXCL, the generator seeded from the clock in every forked child -- children
+	** of two PARALLEL batch processes that start in the same microsecond would otherwise share one spool file in /tmp. */
+	{	const char *b = getenv ("SFH_SCRATCH") ;
+		snprintf (batch_tmp, sizeof (batch_tmp), "%s/sfh-tmp-%d", (b && b [0]) ? b : "/var/tmp", (int) getpid ()) ;
+		if (mkdir (batch_tmp, 0700) == 0 || errno == EEXIST) setenv ("TMPDIR", batch_tmp, 1) ; else batch_tmp [0] = 0 ;
+		}
 	while (more)
 	{	ssize_t r = getline (&line, &cap, in) ;
 		if (r <= 0 || !strncmp (line, "== ", 3))
@@ -662,6 +671,11 @@ cmd_batch (FILE *in, int timeout_s)
 		lines [nlines ++] = strdup (line) ;
 		}
 	free (lines) ; free (line) ;
+	if (batch_tmp [0])
+	{	char cmd [400] ;
+		snprintf (cmd, sizeof (cmd), "rm -rf '%s'", batch_tmp) ;
+		if (system (cmd)) { }
+		}
 	return 0 ;
 }
 
